@@ -147,6 +147,12 @@ struct TextGen {
 		size_t s = out.size();
 		out += '"';
 		size_t n = c.len(in_key ? 8 : 14);
+		if (!in_key && c.coin(1))
+		{
+			// long strings: the parser's scratch buffer and the string node's storage grow several times
+			n = (size_t)c.range(40, c.coin(20) ? 5000 : 400);
+			f_longstr = true;
+		}
 		for (size_t i = 0; i < n; i++)
 			string_item(in_key);
 		out += '"';
@@ -350,10 +356,49 @@ struct TextGen {
 		}
 		}
 	}
+	bool f_wide = false, f_longstr = false;
+	void scalar_value()
+	{
+		switch (c.pick({2, 1, 1, 8, 6}))
+		{
+		case 0: out += "null"; break;
+		case 1: out += "true"; break;
+		case 2: out += "false"; break;
+		case 3: number(); break;
+		default: string_text(false); break;
+		}
+	}
+	// a container with 9..70 (rarely up to 600) scalar children: crosses the array (32, 64 ...) and object
+	// (11, 22, 43 ...) growth points of the library
+	void wide(bool array)
+	{
+		f_wide = true;
+		size_t n = c.coin(10) ? (size_t)c.range(70, 600) : (size_t)c.range(9, 70);
+		out += array ? '[' : '{';
+		for (size_t i = 0; i < n; i++)
+		{
+			if (i)
+				out += ',';
+			ws();
+			if (!array)
+			{
+				out += "\"k" + std::to_string(c.coin(5) ? c.range(0, n) : i) + "\":";
+			}
+			scalar_value();
+		}
+		out += array ? ']' : '}';
+	}
 	// force > 0: this value must be a container and one of its children continues the spine (deep nesting)
 	void value(int depth, int force = 0)
 	{
 		nodes++;
+		if (force == 0 && depth < o.max_depth && c.coin(2))
+		{
+			wide(c.coin(50));
+			if (depth + 1 > f_nesting)
+				f_nesting = depth + 1;
+			return;
+		}
 		bool can_nest = depth < o.max_depth && nodes < o.max_nodes;
 		size_t kind = force > 0 ? 5 + c.pickn(2) : c.pick({6, 4, 4, 22, 22, can_nest ? 22u : 0u, can_nest ? 22u : 0u});
 		switch (kind)
